@@ -386,7 +386,7 @@ class Delta(object):
         self.eff = eff
 
 
-def cell_delta(eff, field=None):
+def cell_delta(eff, field=None, path=None):
     """Delta of write effect `eff` relative to the previous content of the same cell.
     For `update` the previous content is the closure argument; for `save` it must be a read of the same
     item and key at the same write-version (no intervening write: alias safety).  field=None: the cell is
@@ -427,6 +427,10 @@ def cell_delta(eff, field=None):
                 la = lf[:3]
         if la is not None and la[0] == eff.item and la[1] == eff.key:
             prevs.append((a, c, la[2]))
+    if not prevs and path is not None and eff.old is not None and eff.old[0] == "vfield" and eff.old[1][0] == "may_load" \
+            and any(c[0] == eff.old and c[1] == "None" for c in path.conds):
+        # read-modify-write of an entry this path decided absent (`match old { Some(x) => x + a, None => a }`): previous = 0
+        return Delta(n, ("inexact operation %s" % n.inexact) if n.inexact else None, eff)
     if len(prevs) != 1 or prevs[0][1] != 1:
         return Delta(None, "value written is not (previous value of the same cell) plus/minus something: %s" % show(v)[:200], eff)
     if prevs[0][2] != eff.ver:
